@@ -23,13 +23,35 @@ CHECKS = {
  "C19": ("exploration", "plug-in codemods on regex/XML pipelines: per-line reference model + expat infoset comparison + diff applier", "5 C19"),
  "C20": ("exploration", "black-box exit status of the console script over an argv/env/output-path grammar vs status table", "5 C20"),
 }
+WHAT = {
+ "C01": "every write event (and every final file) of real runs over all 101 codemods x corpus seeds x contexts (def/async/method/nested/twice/local-decoy) x import styles (alias/from/second-use/mixed) x byte and call layouts (CRLF/BOM/tabs/exploded/hanging/trailing comma/semicolon/keywords reversed) + generated program families is compiled with the stdlib; SAST codemods run with their tool result files",
+ "C02": "same executions as C01; the stdlib symtable/ast unresolved-name set after each rewrite must be contained in the one before (flow-insensitive, so it cannot call a conditionally bound name unresolved)",
+ "C03": "tree snapshots at every codemod boundary of single-codemod runs, codemod sequences on shared files, manifest-is-source sequences, every manifest kind x encoding x line terminator, and heterogeneous projects under 4 workers with delay/yield injection; each reported diff is applied by an independent strict patcher",
+ "C04": "dry/real pairs for every pixee codemod x manifest kind x layout, dependency-adding codemods x every manifest, SAST codemods; sys.addaudithook mutation log + content and (mode, mtime, size) snapshots; console-script dry runs under strace -f",
+ "C05": "random trees (default-excluded directory names, dot-directories, symlinked files/dirs into a sibling tree, non-Python files) x random include/exclude lists (literals, *, ?, [..], :line, repeated globs) in find-and-fix and SAST mode; changed set vs an independent glob reference; sibling tree and audit log for outside writes",
+ "C06": "each SAST codemod with its seed body replicated at 3 indentations between statement sentinels and all 2^3 finding subsets + foreign-rule/foreign-file/closed decoys; two sites on one line; re-laid-out multi-line / non-ASCII sources with recomputed Semgrep regions; change entries must carry exactly the site's findings",
+ "C07": "the C01 grid run twice: second run must write nothing (write-hook counter), change no byte and report no changeset",
+ "C08": "generated closed programs per refactoring codemod (boolean templates, comparison operators/chains/bool literals, comprehension consumers, walrus scopes, logging formats, abc, file/lock with, alias chains, imports, multi-piece sqlite queries, nested sites) executed before and after the rewrite in child interpreters",
+ "C09": "batch run vs chain of single-codemod runs (tree + per-codemod results) over curated interacting sequences, mover x semgrep-detected pairs on a shared file, manifest-is-source and same-package sequences, random sequences",
+ "C10": "5 pipeline kinds x n files x fault kind (undecodable bytes off/on/inside the site's line, NUL, syntax error, latin-1 cookie, empty, deleted before detector / before work item, transformer raising at entry, failpoint at every j-th repository function entered in transform) x position; differential against the fault-free run, per-codemod attribution, per-finding unfixed count",
+ "C11": "groups of real CLI processes of one (project, argv) under worker counts {1,2,4,16}, seeded per-file delays, PYTHONHASHSEED {0..4,random}, file creation orders (thorough: LINE-event yield injection, switch interval 1e-6); projects with repeated base names and mixed layouts; in-flight counter at the per-file hook; aggregates mutated only by the coordinating thread; sibling-independence probes",
+ "C12": "post-condition wrappers on ResultSet.__or__/add_result; (a) |/|= folds of reader-built sets vs multiset union, (b) generated Sonar/Semgrep/CodeQL/DefectDojo documents vs reference extraction, (c) detector combination functions over every file order, (d) CLI runs with findings split over 2-3 files in every order and mixed-tool SARIF files with a hook on the routing step",
+ "C13": "codemods whose seed edit is one line replaced by one line: 3 copies between sentinels at module level / in def / method / if-block; diagnostic cases + subsets of site lines excluded or included in relative, glob and absolute spellings x 6 spellings of the target directory; change-entry line numbers",
+ "C14": "generated manifests in 4 formats (comments, markers, extras, -r, inline/multi-line, poetry tables with type checkers and stubs, CRLF, no final newline, already-declared spellings) x dependency-adding codemods (single and several per run), run twice; independent re-parse; declared requirements compared by value",
+ "C15": "mixed runs (multi-codemod, failures, injected write errors, dependency changes, non-ASCII, SAST tools, zero codemods/files, dry-run) validated against a vendored CodeTF JSON-Schema and structural invariants vs tree and executed-codemod trace",
+ "C16": "22 hardening codemods x seeds x contexts x call shapes (extra keyword, *args, **kw, nested call, keyword-first, trailing comma, exploded, mixed import bindings) with an unrelated marker call; token-multiset delta within the documented vocabulary; argument identity order",
+ "C17": "include/exclude lists over real ids, unknown ids and * patterns (prefix/suffix/infix/star-matches-empty/head-tail-overlap/two stars/metacharacters) x every way of supplying SAST inputs; executed order from the codemod-boundary hook vs an independent reference",
+ "C18": "22 semgrep-detected codemods x grid variants (+ hanging layouts and non-ASCII text before / inside the flagged construct), 50 files per project; own-semgrep-call hook gives flagged locations; flagged => rewritten or failed unless structurally declined; second pass locations vs rewritten statements",
+ "C19": "harness-defined plug-in codemods on the public regex / SAST-regex / XML / SAST-XML pipelines through run(): per-line re.sub reference, expat infoset comparison, strict diff applier, findings per line/element, dry-run",
+ "C20": "black-box console script over an enumerated table and random compositions of option groups x error conditions x AI-client environments x unwritable outputs x byte-named paths, plus a sample of the whole grid that must complete with status 0",
+}
 TEXT = "Runtime monitoring of real codemodder runs: held on the executions this run produced (evidence lists codemods/contexts/layouts/schedules/fault points covered); says nothing about inputs the generators do not produce."
 def main():
     checks = []
     for pid, (level, tech, ref) in CHECKS.items():
         checks.append({"property_id": pid, "quick_cmd": f"/venv/bin/python -m vf.check {pid} --tier quick", "thorough_cmd": f"/venv/bin/python -m vf.check {pid} --tier thorough",
                        "evidence_file": f"evidence/{pid}.json", "replay_cmd_template": "/venv/bin/python -m vf.replay {path}", "engine": "vf",
-                       "level_claimed": {"category": level, "text": TEXT, "design_ref": "DESIGN.md section " + ref},
+                       "level_claimed": {"category": level, "text": WHAT[pid] + ". " + TEXT, "design_ref": "DESIGN.md section " + ref},
                        "level_note": "trusted base: CPython stdlib oracles (ast, symtable, compile, difflib, expat, tomllib, configparser), packaging, jsonschema; harness wrappers installed from outside the repository; seed corpus = inputs of tests/codemods",
                        "technique": tech})
     m = {"version": 1, "setup_cmd": "/venv/bin/python -m vf.setup",
